@@ -21,7 +21,10 @@ RULE = ('(history) sequences of up to 40 operations over the public API: constru
         'defaults (64 classes, ContentHeader, Basic.Properties), construct with arguments, '
         'marshal, unmarshal(valid), unmarshal(invalid -> exception), primitive encode / '
         'decode, toggle the legacy switch, mutate a previously returned object (add a key '
-        'to its table, append to a decoded list, set a property). Oracle after every call: '
+        'to its table, append to a decoded list, set a property), marshal a long-lived '
+        '(possibly mutated) object again, encode two equal-comparing but distinguishable '
+        'values one after the other (True/1, 0.0/-0.0, Decimal 1.0/1.00, the two datetimes '
+        'of a repeated DST hour). Oracle after every call: '
         '(i) canonical result (bytes | (consumed, channel, class, attrs) | exception type) '
         'equals the result of the same call with the same switch value in a pristine '
         'interpreter image (pbt.fresh forks a new image per call); (ii) no mutable member '
@@ -30,7 +33,12 @@ RULE = ('(history) sequences of up to 40 operations over the public API: constru
         'level constants deep-equal their snapshot. (threads) 2-3 threads each running a '
         'drawn call list under a deterministic scheduler that switches threads at pamqp '
         'line events (quick) / opcodes (thorough) following a drawn schedule (used cyclically); every call '
-        'result must equal its fresh-interpreter result. Non-trivial: history contains >= 1 '
+        'result must equal its fresh-interpreter result. (saturation) in a forked pristine '
+        'process, `fill` distinct calls of one kind (table keys, integers, strings, '
+        'timestamps, decimals, method frames, headers; fill = 0 or 2^k-1, 2^k, 2^k+1 for '
+        'k = 4..12) are made first, then 2-3 threads make fresh calls of that kind under a '
+        'drawn schedule - so bounded caches keyed by value are exercised at and around '
+        'their capacity, including concurrent eviction. Non-trivial: history contains >= 1 '
         'failed decode or mutation before a later compared call; threaded: >= 10 context '
         'switches inside pamqp code. distinct = digest of the case.')
 ASSUMPTIONS = [
@@ -167,11 +175,48 @@ def check_history(case):
     f = fresh()
     try:
         encode.support_deprecated_rabbitmq(False)
-        for step, op in enumerate(case['ops']):
+        ops = []
+        for op in case['ops']:
+            if op[0] == 'twin':          # two equal-comparing values, one after the other
+                ops.append(['prim_encode', op[1], op[2][0]])
+                ops.append(['prim_encode', op[1], op[2][1]])
+            else:
+                ops.append(op)
+        for step, op in enumerate(ops):
             k = op[0]
             if k == 'toggle':
                 encode.support_deprecated_rabbitmq(op[1])
                 legacy = bool(op[1])
+            elif k == 'assign':
+                frames = [o for o in objects if calls.frame_state(o) is not None]
+                if frames:
+                    target = frames[op[1] % len(frames)]
+                    for n, v in op[2].items():
+                        if n in getattr(target, '__slots__', ()):
+                            setattr(target, n, copy.deepcopy(v))
+                    disturbed = True
+            elif k == 'marshal_kept':
+                frames = [o for o in objects if calls.frame_state(o) is not None]
+                if not frames:
+                    continue
+                target = frames[op[1] % len(frames)]
+                kind, state = calls.frame_state(target)
+                try:
+                    canon.dumps(state)
+                except TypeError:
+                    continue
+                call = ['marshal_state', kind, state, op[2]]
+                got = calls.execute(call, None, target)
+                want = f.ask(legacy, call)
+                if got != want:
+                    raise Violation(
+                        'history-dependent:marshal_kept',
+                        'step %d: marshalling a long-lived %s object whose attributes '
+                        'are now %s gives %s; a fresh interpreter gives %s' %
+                        (step, kind, canon.short(state, 160), canon.short(got, 160),
+                         canon.short(want, 160)))
+                if disturbed:
+                    compared_after += 1
             elif k == 'mutate':
                 if objects:
                     _mutate(objects[op[1] % len(objects)], op[2])
@@ -254,6 +299,27 @@ def prim_encode_ops():
     return st.tuples(st.just('prim_encode'), st.sampled_from(calls.PRIM_ENC), vals)
 
 
+def twin_ops():
+    """pairs of values that compare (and hash) equal but must encode differently or are
+    otherwise distinguishable - the classic way a memo cache goes wrong"""
+    import decimal as _d
+    pairs = st.one_of(
+        st.sampled_from([
+            [True, 1], [1, True], [False, 0], [0, False], [0.0, -0.0], [-0.0, 0.0],
+            [_d.Decimal('1.0'), _d.Decimal('1.00')], [_d.Decimal('1.00'), _d.Decimal('1')],
+            [_d.Decimal('0'), _d.Decimal('-0')], [_d.Decimal('1E+2'), _d.Decimal('100')],
+            [{'a': 1}, {'a': True}], [[1, 0], [True, False]], [[0.0], [-0.0]],
+            [{'k': _d.Decimal('2.50')}, {'k': _d.Decimal('2.5')}],
+            [1, 1.0], [255, 255.0]]),
+        st.builds(lambda y, m, us, o: list(S.fold_pair(y, m, us))[::1 if o else -1],
+                  st.integers(1971, 2105), st.integers(0, 59), st.integers(0, 999999),
+                  st.booleans()))
+    fns = st.sampled_from(['encode_table_value', 'encode_table_value', 'timestamp',
+                           'decimal', 'floating_point', 'octet', 'table_integer',
+                           'field_array', 'field_table', 'long_long_int', 'boolean'])
+    return st.tuples(st.just('twin'), fns, pairs)
+
+
 def prim_decode_ops():
     def render(v):
         out = wire.Out()
@@ -298,7 +364,10 @@ def call_ops():
 
 def history_cases(tier):
     op = st.one_of(
-        call_ops(), call_ops(), call_ops(),
+        call_ops(), call_ops(), call_ops(), twin_ops(),
+        st.tuples(st.just('marshal_kept'), st.integers(0, 50),
+                  st.sampled_from([1, 1, 1, 2, 0])),
+        st.tuples(st.just('marshal_kept'), st.integers(0, 3), st.just(1)),
         st.tuples(st.just('toggle'), st.booleans()),
         st.tuples(st.just('mutate'), st.integers(0, 50), st.integers(1, 9)),
         st.tuples(st.just('mutate'), st.integers(0, 50), st.integers(1, 9)),
@@ -316,6 +385,23 @@ def default_then_mutate(tier, shard, nshards):
                             ['construct_default', n], ['mutate', 1, 2],
                             ['toggle', True], ['construct_default', n],
                             ['toggle', False], ['construct_default', n]]})
+    return out[shard::nshards]
+
+
+def reuse_all(tier, shard, nshards):
+    """every class with arguments: construct, marshal, re-assign every argument on the
+    same object, marshal again (same channel), toggle the switch, marshal again"""
+    from pbt.props import c01
+    out = []
+    for c in c01.reassign_sweep(tier, 0, 1):
+        if c['inplace']:
+            continue
+        out.append({'ops': [
+            ['construct', {'kind': 'method', 'cls': c['cls'], 'args': c['args'],
+                           'ch': 1}],
+            ['marshal_kept', 0, 1], ['assign', 0, c['args2']], ['marshal_kept', 0, 1],
+            ['toggle', True], ['marshal_kept', 0, 1], ['toggle', False],
+            ['mutate', 0, 7], ['marshal_kept', 0, 1]]})
     return out[shard::nshards]
 
 
@@ -364,14 +450,143 @@ def thread_cases(tier):
         'opcode': st.just(tier == 'thorough')})
 
 
+# ---------------------------------------------------------------- saturation x schedule
+
+FILL_LEVELS = sorted({0} | {2 ** k + d for k in range(4, 13) for d in (-1, 0, 1)})
+SAT_KINDS = ['keys', 'ints', 'strs', 'timestamps', 'decimals', 'frames', 'headers']
+
+
+def sat_call(kind, i):
+    """the i-th distinct call of a kind (deterministic)"""
+    import datetime
+    if kind == 'keys':
+        return ['prim_encode', 'field_table', {'key-%07d' % i: 1}]
+    if kind == 'ints':
+        return ['prim_encode', 'encode_table_value', 1000 + i * 7]
+    if kind == 'strs':
+        return ['prim_encode', 'long_string', 'value-%07d' % i]
+    if kind == 'timestamps':
+        return ['prim_encode', 'timestamp',
+                datetime.datetime(2001, 1, 1, tzinfo=datetime.timezone.utc) +
+                datetime.timedelta(seconds=i * 61)]
+    if kind == 'decimals':
+        return ['prim_encode', 'decimal', decimal.Decimal(i).scaleb(-(i % 5))]
+    if kind == 'frames':
+        return ['marshal', {'kind': 'method', 'cls': 'Queue.Declare', 'ch': 1,
+                            'args': {'ticket': 0, 'queue': 'q-%07d' % i,
+                                     'passive': False, 'durable': True,
+                                     'exclusive': False, 'auto_delete': False,
+                                     'nowait': False,
+                                     'arguments': {'arg-%07d' % i: i}}}]
+    return ['marshal', {'kind': 'header', 'ch': 1, 'body_size': i,
+                        'props': {'message_id': 'm-%07d' % i,
+                                  'headers': {'h-%07d' % i: i}}}]
+
+
+def check_saturation(case):
+    """in a forked, pristine copy of this process: perform `fill` distinct calls of one
+    kind (so that any bounded cache keyed by value is driven to a chosen fill level), then
+    let 2-3 threads make fresh calls of that kind under a drawn schedule; every result must
+    equal the fresh-interpreter result"""
+    import json
+    import os as _os
+    from pbt.sched import Deadlock, Scheduler
+    kind, fill = case['kind'], case['fill']
+    f = fresh()
+    base = 5000000
+    lists = [[sat_call(kind, base + t * 1000 + j) for j in range(n)]
+             for t, n in enumerate(case['per_thread'])]
+    wants = [[f.ask(False, c) for c in cl] for cl in lists]
+    r, w = _os.pipe()
+    pid = _os.fork()
+    if pid == 0:
+        try:
+            _os.close(r)
+            encode.support_deprecated_rabbitmq(False)
+            for i in range(fill):
+                calls.execute(sat_call(kind, i))
+
+            def body(cl):
+                return lambda: [calls.execute(c) for c in cl]
+            s = Scheduler([body(cl) for cl in lists], case['schedule'],
+                          opcode=case.get('opcode', False), timeout=120)
+            try:
+                out = {'results': s.run(), 'switches': s.switches}
+            except Deadlock as e:
+                out = {'deadlock': str(e)}
+            _os.write(w, json.dumps(out).encode())
+        except BaseException as e:
+            _os.write(w, json.dumps({'error': repr(e)}).encode())
+        finally:
+            _os._exit(0)
+    _os.close(w)
+    chunks = []
+    while True:
+        b = _os.read(r, 65536)
+        if not b:
+            break
+        chunks.append(b)
+    _os.close(r)
+    _os.waitpid(pid, 0)
+    out = json.loads(b''.join(chunks).decode() or '{}')
+    if 'results' not in out:
+        raise HarnessError('saturation child: %r' % out)
+    for t, (got, want, cl) in enumerate(zip(out['results'], wants, lists)):
+        for i, (g, wv) in enumerate(zip(got or [], want)):
+            if g != wv:
+                raise Violation('saturation:%s' % cl[i][0],
+                                'after %d distinct %s calls, thread %d call %d %s '
+                                'under the drawn schedule gives %s; a fresh '
+                                'interpreter gives %s' %
+                                (fill, kind, t, i, canon.short(cl[i], 100),
+                                 canon.short(g, 160), canon.short(wv, 160)))
+        if got is None or len(got) != len(want):
+            raise HarnessError('saturation thread %d produced %r' % (t, got))
+    return {'labels': ['kind=' + kind, 'fill>=1024' if fill >= 1024 else 'fill<1024'],
+            'nontrivial': out['switches'] >= 10 and fill > 0}
+
+
+def saturation_cases(tier):
+    return st.fixed_dictionaries({
+        'kind': st.sampled_from(SAT_KINDS), 'fill': st.sampled_from(FILL_LEVELS),
+        'per_thread': st.lists(st.integers(1, 2), min_size=2, max_size=3),
+        'schedule': st.lists(st.integers(0, 5), min_size=3, max_size=60),
+        'opcode': st.just(tier == 'thorough')})
+
+
+def saturation_sweep(tier, shard, nshards):
+    """every kind x every fill level x a few fixed schedules"""
+    scheds = ([0, 1], [0, 0, 1], [0, 1, 1, 0, 0, 1], [0, 0, 0, 1, 1, 1, 0, 1],
+              [1, 0, 0, 0, 0, 1, 1, 1, 1, 0])
+    out = []
+    for kind in SAT_KINDS:
+        for fill in FILL_LEVELS:
+            for sc in scheds:
+                out.append({'kind': kind, 'fill': fill, 'per_thread': [1, 1],
+                            'schedule': list(sc), 'opcode': False})
+    return out[shard::nshards]
+
+
 COMPONENTS = [
     Component('defaults', check_history, cases=default_then_mutate,
               shards={'quick': 8, 'thorough': 8},
               describe='every class: default construction, mutation of every returned '
                        'default, construction again (also under the legacy switch)'),
+    Component('reuse-all', check_history, cases=reuse_all,
+              shards={'quick': 8, 'thorough': 8},
+              describe='every class: one long-lived object marshalled, re-assigned, '
+                       'marshalled again; also across a switch toggle'),
     Component('history', check_history, strategy=history_cases,
               budget={'quick': 2400, 'thorough': 48000},
               describe='generated API call histories vs fresh interpreter'),
+    Component('saturation-all', check_saturation, cases=saturation_sweep,
+              distinct_by_construction=True,
+              describe='every value kind x every power-of-two fill level +-1 (16..4096) '
+                       'x 5 fixed two-thread schedules, each in a forked pristine process'),
+    Component('saturation', check_saturation, strategy=saturation_cases,
+              budget={'quick': 1600, 'thorough': 32000},
+              describe='drawn kind / fill level / schedule; threads make fresh calls '
+                       'after the process has seen `fill` distinct values'),
     Component('threads', check_threads, strategy=thread_cases,
               budget={'quick': 1600, 'thorough': 32000},
               describe='2-3 threads under generated deterministic schedules'),
